@@ -38,6 +38,7 @@
 #include <csignal>
 #include <iostream>
 #include <sstream>
+#include <sys/resource.h>
 #include <sys/wait.h>
 #include <unistd.h>
 
@@ -367,6 +368,8 @@ PCV_OP(fdiv64)
   if (pid < 0) throw std::runtime_error("harness: fork");
   if (pid == 0) {
     close(fds[0]);
+    struct rlimit nocore = {0, 0};
+    setrlimit(RLIMIT_CORE, &nocore);
     std::signal(SIGFPE, SIG_DFL);
     volatile uint64_t dd = d;
     uint64_t q = fast_div64(x, (uint64_t) dd);
